@@ -81,4 +81,17 @@ LongLineFails(o) ==
   \* a stroke of width 1 has exactly the points of the thin line, a wider one at least as many
   \cup (IF \A i \in 1..Len(o.strokes) : IF o.strokes[i][1] = 1 THEN o.strokes[i][2] = o.np ELSE o.strokes[i][2] >= o.np
         THEN {} ELSE {"long_stroke_count"})
+
+\* lines longer than 2^29 (event "xlong"; dx = M > 0, 0 <= dy = m <= M, and m <= 2 or M - m <= 2 so that the cross
+\* product m a - M b of a sampled point (a, b) fits TLC's 32-bit integers:  m a - M b  =  M (a - b) - (M - m) a )
+XLongFails(o) ==
+  LET M == o.e[1] - o.s[1]  m == o.e[2] - o.s[2]
+      XCross(a, b) == IF m <= 2 THEN m * a - M * b ELSE M * (a - b) - (M - m) * a
+      SampleOK(q) == LET a == q[2] - o.s[1]  b == q[3] - o.s[2] IN
+                     /\ a = q[1]                                   \* one pixel along the major axis per step
+                     /\ b >= 0 /\ b <= m /\ a - b >= 0 /\ a - b <= M - m
+                     /\ Abs(XCross(a, b)) <= M \div 2               \* within half a pixel of the ideal line
+  IN   (IF o.np = M + 1 THEN {} ELSE {"thin_count"})
+  \cup (IF o.first = o.s /\ o.last = o.e THEN {} ELSE {"thin_end"})
+  \cup (IF \A i \in 1..Len(o.samples) : SampleOK(o.samples[i]) THEN {} ELSE {"thin_distance"})
 =============================================================================
